@@ -111,6 +111,7 @@ type deferred struct {
 
 type Outcome struct {
 	St    *State
+	Start int // object counter when the (top-level) call began: objects with larger ids were allocated by the call
 	Ret   []Val
 	Panic bool
 	Msg   string
@@ -213,7 +214,34 @@ func (ex *Exec) Call(st *State, fn *ssa.Function, args []Val, parent *Frame) []O
 	if len(fn.Blocks) == 0 {
 		return []Outcome{{St: st, Ret: nil}}
 	}
-	return ex.enter(fr, st, fn.Blocks[0], nil)
+	start := ex.nextObj
+	outs := ex.enter(fr, st, fn.Blocks[0], nil)
+	if parent == nil {
+		for i := range outs {
+			outs[i].Start = start
+		}
+	}
+	return outs
+}
+
+// allocatedSince: the object was allocated after the object counter stood at start and is not a package-level
+// variable (those are materialised lazily, so their ids say nothing).
+func (ex *Exec) allocatedSince(start, obj int) bool {
+	if obj <= start {
+		return false
+	}
+	for _, id := range ex.globals {
+		if id == obj {
+			return false
+		}
+	}
+	return true
+}
+
+// freshSlice: the slice was allocated by the call that produced outcome o (it does not share storage with anything that
+// existed before: a package-level template or scratch buffer, a buffer of the receiver, an argument).
+func (ex *Exec) freshSlice(o Outcome, s *SliceV) bool {
+	return s != nil && !s.Unk && (s.Nil || (len(s.Path) == 0 && ex.allocatedSince(o.Start, s.Obj)))
 }
 
 func (ex *Exec) enter(fr *Frame, st *State, b *ssa.BasicBlock, prev *ssa.BasicBlock) []Outcome {
